@@ -171,9 +171,11 @@ def random_case(rng, j):
     sc = {"eco": eco, "universe": uni, "manifest": man, "vulns": vulns, "opts": o}
     if eco == "Maven" and rng.random() < 0.3:
         sc["layout"] = rng.choice(["profile-mgmt", "profile-mgmt-active", "profile-props"])
-    # (no alias re-declarations here: with tag / pre-release requirements the relaxer rewrites one of the two declarations
-    #  of a package depending on Go map order, which makes report, re-analysis and trace differ from run to run - see
-    #  DESIGN.md 0.4; the deterministic overlay() below keeps the alias dimension for the TLC-generated scenarios)
+    # a package declared twice, plainly and through an npm: alias (the package.json reader used to keep only one of the two
+    # when the later one sat in devDependencies / optionalDependencies: fixed finding C12-npm-alias-declaration-lost)
+    if eco == "npm" and rng.random() < 0.25:
+        m = rng.choice(man)
+        man.append({"name": m["name"] + "-legacy", "req": "npm:%s@%s" % (m["name"], m["req"]), "group": rng.choice(["", "", "dev"])})
     return {"fam": "Remediation", "cfg": "random", "scenario": sc, "devs": [], "model": None, "id": vf.case_id(sc)}
 
 
@@ -371,10 +373,23 @@ def designed_cases():
             out.append({"fam": "Remediation", "cfg": "designed", "scenario": sc, "devs": [], "model": None, "id": vf.case_id(sc)})
     sc = json.loads(COMBINED_WITNESS)
     out.append({"fam": "Remediation", "cfg": "designed", "scenario": sc, "devs": [], "model": None, "id": vf.case_id(sc)})
+    # npm: one package declared plainly and through an alias, both in devDependencies. Before the repair the reader kept
+    # whichever declaration Go's map iteration visited last, so each witness is replayed several times (field "rep" is
+    # ignored by the harness; it only makes the case ids differ)
+    for w in DOUBLE_DECLARATION_WITNESSES:
+        for rep in range(6):
+            sc = json.loads(w)
+            sc["rep"] = rep
+            out.append({"fam": "Remediation", "cfg": "designed", "scenario": sc, "devs": [], "model": None, "id": vf.case_id(sc)})
     return out
 
 
 COMBINED_WITNESS = '{"eco": "Maven", "manifest": [{"group": "", "name": "pkg:a", "req": "1.0.0"}, {"group": "", "name": "pkg:b", "req": "[3.0.1-rc1,3.1.0)"}], "opts": {"devDeps": true, "explicit": [], "ignore": [], "ignoreDev": false, "levels": {"": "major"}, "maxDepth": 1, "maxUpgrades": 2, "minSeverity": 0, "mode": "fix", "noIntroduce": false, "strategy": "override"}, "universe": [{"name": "pkg:a", "versions": [{"deps": [], "latest": true, "v": "1.0.0"}, {"deps": [["pkg:b", "[2.0.1-rc1,2.1.0)"]], "latest": false, "v": "1.1.2-rc2"}, {"deps": [["pkg:b", "[0,)"]], "latest": false, "v": "1.2.2-rc1"}]}, {"name": "pkg:b", "versions": [{"deps": [], "latest": false, "v": "2.0.0"}, {"deps": [], "latest": false, "v": "2.0.1-rc1"}, {"deps": [], "latest": false, "v": "3.0.0"}, {"deps": [], "latest": false, "v": "3.0.1-rc1"}, {"deps": [], "latest": false, "v": "3.1.2-rc2"}, {"deps": [], "latest": true, "v": "3.1.2"}]}], "vulns": [{"events": [["introduced", "1.0.0"], ["fixed", "1.1.2-rc2"]], "id": "V1", "pkg": "pkg:a", "sev": "high"}, {"events": [["introduced", "2.0.0"], ["fixed", "3.1.2"]], "id": "V2", "pkg": "pkg:b", "sev": "high"}, {"events": [["introduced", "2.0.0"], ["fixed", "3.1.2"]], "id": "V3", "pkg": "pkg:b", "sev": ""}, {"events": [["introduced", "2.0.1-rc1"], ["fixed", "3.1.2-rc2"]], "id": "V4", "pkg": "pkg:b", "sev": ""}]}'
+
+DOUBLE_DECLARATION_WITNESSES = [
+    '{"eco": "npm", "manifest": [{"group": "", "name": "a", "req": "latest"}, {"group": "dev", "name": "b", "req": "latest"}, {"group": "dev", "name": "b-legacy", "req": "npm:b@latest"}], "opts": {"devDeps": true, "explicit": [], "ignore": [], "ignoreDev": false, "levels": {"": "patch", "a": "none", "b": "major"}, "maxDepth": 0, "maxUpgrades": 1, "minSeverity": 7.0, "mode": "fix", "noIntroduce": false, "strategy": "relax"}, "universe": [{"name": "a", "versions": [{"deps": [["b", "latest"], ["c", "~1.1.1-rc.2"]], "latest": false, "v": "1.1.2-rc"}, {"deps": [["b", "latest"], ["c", "~1.0.2-rc.1"]], "latest": false, "v": "2.1.2"}, {"deps": [], "latest": true, "v": "3.0.1"}]}, {"name": "b", "versions": [{"deps": [], "latest": false, "v": "1.0.1"}, {"deps": [["c", "~1.2.0-rc"]], "latest": false, "v": "1.1.2-rc.2"}, {"deps": [], "latest": false, "v": "1.2.0-rc.1"}, {"deps": [["c", "latest"]], "latest": false, "v": "1.2.2"}, {"deps": [["c", "latest"]], "latest": false, "v": "2.0.2-rc"}, {"deps": [], "latest": false, "v": "2.1.0"}, {"deps": [], "latest": false, "v": "2.1.2-rc"}, {"deps": [], "latest": false, "v": "2.2.0-rc.2"}, {"deps": [], "latest": false, "v": "2.2.0"}, {"deps": [["c", "~1.2.1-rc.2"]], "latest": true, "v": "2.2.1"}, {"deps": [], "latest": false, "v": "3.0.1-rc"}, {"deps": [], "latest": false, "v": "3.0.2-rc.1"}]}, {"name": "c", "versions": [{"deps": [], "latest": false, "v": "1.0.2-rc.1"}, {"deps": [], "latest": false, "v": "1.1.1-rc.2"}, {"deps": [], "latest": false, "v": "1.2.0-rc"}, {"deps": [], "latest": false, "v": "1.2.0"}, {"deps": [], "latest": false, "v": "1.2.1-rc.2"}, {"deps": [], "latest": false, "v": "2.1.0-rc.2"}, {"deps": [], "latest": false, "v": "2.1.2-rc"}, {"deps": [], "latest": true, "v": "3.1.1"}]}], "vulns": [{"events": [["introduced", "1.2.0"], ["fixed", "2.1.2-rc"]], "id": "V1", "pkg": "c", "sev": ""}, {"events": [["introduced", "1.2.0"]], "id": "V2", "pkg": "c", "sev": "low"}]}',
+    '{"eco": "npm", "manifest": [{"group": "", "name": "a", "req": "latest"}, {"group": "dev", "name": "c", "req": "2.0.0-rc.2"}, {"group": "dev", "name": "c-legacy", "req": "npm:c@2.0.0-rc.2"}], "opts": {"devDeps": true, "explicit": [], "ignore": [], "ignoreDev": true, "levels": {"": "patch", "c": "major"}, "maxDepth": 0, "maxUpgrades": 2, "minSeverity": 0, "mode": "fix", "noIntroduce": false, "strategy": "relax"}, "universe": [{"name": "a", "versions": [{"deps": [["b", "latest"], ["c", "~3.2.0-rc.1"]], "latest": false, "v": "1.0.0"}, {"deps": [["b", "^2.1.2"], ["d", "3.0.2-rc"]], "latest": false, "v": "1.0.1"}, {"deps": [["c", "~2.1.2-rc.2"]], "latest": false, "v": "1.1.2"}, {"deps": [["b", "2.2.2-rc.1"]], "latest": false, "v": "2.0.2-rc.1"}, {"deps": [], "latest": false, "v": "2.1.1"}, {"deps": [["b", "~2.2.1"], ["c", "~2.1.2-rc.2"], ["d", "3.0.2-rc"]], "latest": false, "v": "2.1.2-rc"}, {"deps": [["c", "1.0.2"], ["d", "latest"]], "latest": false, "v": "2.1.2"}, {"deps": [["b", "~2.2.1"], ["c", "^2.1.2-rc.2"]], "latest": false, "v": "2.2.0"}, {"deps": [["b", "^3.2.0"]], "latest": true, "v": "2.2.1"}, {"deps": [["c", "~2.1.2-rc.2"]], "latest": false, "v": "3.0.2-rc.1"}, {"deps": [["b", "latest"]], "latest": false, "v": "3.2.2-rc.2"}]}, {"name": "b", "versions": [{"deps": [], "latest": false, "v": "1.0.0-rc.2"}, {"deps": [["d", "latest"]], "latest": false, "v": "1.0.0"}, {"deps": [], "latest": false, "v": "2.1.1-rc.1"}, {"deps": [["d", "3.0.2-rc"]], "latest": false, "v": "2.1.2"}, {"deps": [["d", "^3.0.2-rc"]], "latest": false, "v": "2.2.0-rc.2"}, {"deps": [["d", "~3.0.2-rc"]], "latest": false, "v": "2.2.1"}, {"deps": [["c", "~2.1.2-rc.2"], ["d", "~3.0.2-rc"]], "latest": false, "v": "2.2.2-rc.1"}, {"deps": [], "latest": false, "v": "2.2.2"}, {"deps": [["c", "latest"], ["d", "3.0.2-rc"]], "latest": true, "v": "3.2.0"}, {"deps": [], "latest": false, "v": "3.2.1-rc.2"}]}, {"name": "c", "versions": [{"deps": [], "latest": true, "v": "1.0.2"}, {"deps": [], "latest": false, "v": "2.0.0-rc.2"}, {"deps": [["d", "^3.0.2-rc"]], "latest": false, "v": "2.1.2-rc.2"}, {"deps": [["d", "^3.0.2-rc"]], "latest": false, "v": "3.2.0-rc.1"}]}, {"name": "d", "versions": [{"deps": [], "latest": true, "v": "3.0.2-rc"}]}], "vulns": [{"events": [["introduced", "0"]], "id": "V1", "pkg": "c", "sev": "low"}, {"events": [["introduced", "2.0.0-rc.2"], ["fixed", "3.2.0-rc.1"]], "id": "V2", "pkg": "c", "sev": "low"}, {"events": [["introduced", "1.0.2"], ["fixed", "2.1.2-rc.2"]], "id": "V3", "pkg": "c", "sev": "high"}]}',
+]
 
 
 def select(ck, cases):
